@@ -23,8 +23,9 @@ Print Assumptions C11_failure_changes_nothing.
     denomination drops by exactly [a], the module account escrows exactly [a] (module-owned pair) or the supply
     drops by exactly [a] (external pair: escrowed then burnt), NO other bank balance and no other supply moves,
     parameters / registry / flags are untouched, no account is created (the module account exists), and the
-    token contracts are in the state produced by exactly: read balanceOf(receiver), mint resp. transfer [a] to
-    the receiver, read balanceOf(receiver) — with the second read exactly [a] above the first. *)
+    token contracts are in the state produced by exactly: read balanceOf(receiver) [external pair: and
+    balanceOf(module)], mint resp. transfer [a] to the receiver, read again — the receiver's balance exactly [a]
+    above [external pair: and the module's exactly [a] below] the first read. *)
 Theorem C11_convert_coin_exact :
   forall X xcall xcontract MODULE (s : state X) m (s' : state X) p,
     deliver xcall xcontract MODULE s (MCC m) = (s', 0%nat) -> cc_pair s m = Ok p ->
@@ -37,8 +38,9 @@ Theorem C11_convert_coin_exact :
       supply_shift s s' (fun y => ind ((p_owner p =? 2) && bytes_eqb y d) (- a)) /\
       same_gates s s' /\ accts_plus s s' MODULE /\
       exists res,
-        token_effect xcall MODULE (s_tokens s) (s_tokens s') c MODULE
-                     (if p_owner p =? 1 then CMint r a else CTransfer r a) r a res /\
+        (if p_owner p =? 1
+         then token_effect xcall MODULE (s_tokens s) (s_tokens s') c MODULE (CMint r a) r a res
+         else token_effect2 xcall MODULE (s_tokens s) (s_tokens s') c MODULE (CTransfer r a) r a MODULE (- a) res) /\
         (p_owner p = 2 -> unpack_bool (cr_ret res) = Some true /\ approval_check (cr_logs res) = Ok tt)
     else s' = delete_pair s p.
 Proof. exact convert_coin_exact. Qed.
@@ -162,13 +164,15 @@ Print Assumptions C11_native_coin_backing.
 
 (** * Backing of the voucher of an external pair
     [VBacked MODULE ledger s]: for every pair (owner = external) listing ONLY its voucher v whose contract is not
-    one of the module's, supply(v) <= ledger(contract, module).  Holds over every history under the two
-    hypotheses on the external contracts: balanceOf is an honest view of [ledger], and a successful call never
-    lowers the module's balance except that the module's own transfer lowers it by at most the amount.  The
-    second is NOT established by the code's checks (Refuted/C11_refuted.v, finding). *)
+    one of the module's, supply(v) <= ledger(contract, module).  Holds over every history under two hypotheses
+    on the external contracts: [honest_view] (balanceOf is a view of [ledger]) and [others_cannot_debit] (no
+    successful call lowers the module's balance in any contract — EXCEPT the module's own transfer in the called
+    contract, about which nothing is assumed: since the repair c5eeeaa the code compares the module's balance
+    before and after; before it, a token charging the sender a fee broke the invariant, Refuted/C11_refuted.v).
+    Both hypotheses are necessary and cannot be established by the module (it can only ask the contract). *)
 Theorem C11_voucher_backing :
   forall X xcall xcontract MODULE (ledger : X -> Z -> Z -> Z),
-    honest_view xcall ledger -> no_overdebit xcall MODULE ledger ->
+    honest_view xcall ledger -> others_cannot_debit xcall MODULE ledger ->
     forall (l : list op) (s : state X),
       Forall (not_module_signed MODULE) l -> WFv s -> VBacked MODULE ledger s ->
       WFv (run xcall xcontract MODULE s l) /\ VBacked MODULE ledger (run xcall xcontract MODULE s l).
